@@ -56,7 +56,7 @@ def build(keys, nkeys, form, variant=None):
     n = len(keys)
     kcols = [(f"k{j}", [k[j] for k in keys]) for j in range(nkeys)]
     pay = [("pos", list(range(n))), ("p", [f"r{i}" for i in range(n)])]
-    cols = pay if form == "external" else [pay[0]] + kcols + [pay[1]]
+    cols = pay if form in ("external", "external-same-name") else [pay[0]] + kcols + [pay[1]]
     if variant is None:
         t = Table([Vector(list(c), name=nm) for nm, c in cols])
     else:
@@ -66,6 +66,11 @@ def build(keys, nkeys, form, variant=None):
         by = [nm for nm, _ in kcols]
     elif form == "column":
         by = [t[nm] for nm, _ in kcols]
+    elif form == "external-same-name":
+        by = [Vector(list(c), name="key") for _, c in kcols]        # DIFFERENT key vectors that carry one and the same name
+    elif form == "name-then-namesake":
+        # the first key by its name, every later key an external vector that carries the first key's NAME but its own values
+        by = [kcols[0][0]] + [Vector(list(c), name=kcols[0][0]) for _, c in kcols[1:]]
     else:
         by = [Vector(list(c)) for _, c in kcols]
     return t, by, cols
@@ -169,7 +174,7 @@ def run_unit(unit):
                 agg.nontrivial += 1
             for revs in itertools.product([False, True], repeat=nkeys):
                 for na_last in (True, False):
-                    for form in FORMS:
+                    for form in FORMS + (("external-same-name", "name-then-namesake") if nkeys >= 2 else ()):
                         rev_forms = ("list", "scalar") if len(set(revs)) == 1 else ("list",)
                         for rf in rev_forms:
                             if rf == "scalar" and form != "name":
